@@ -1,17 +1,34 @@
 """C12 — merging runs follows any/all semantics, order-independently.
 
-Lean: Verif/C12/{Model,Lemmas,Theorems}.lean — runFromLintResult (map keyed by descriptor,
-last wins), mergeRuns (any/all), and the sort + de-duplication + build-name union of
-printDiagnostics, where "sorted" is *any* permutation sorted for the comparator (sort.Slice
-is unstable and mergeRuns ranges over Go maps).
+Lean (Verif/C12): Model (runFromLintResult, mergeRuns, sort + de-duplication + build-name
+union of printDiagnostics, for *any* permutation sorted for the comparator), Pipeline
+(the comparator for an arbitrary field order; linter.lint's MergeIf/BuildName assignment;
+the `-f binary` normalisation relPath + cleared offsets; parseBuildConfigs /
+parseBuildConfig; `-matrix` = parse + one run per configuration + merge), Theorems.
 
-Tie X, no hook: harness/cmd/c12gob gob-encodes structurally identical lintResult values
-into `-f binary` run files and feeds them to the real `staticcheck -merge` built from the
-current tree, for the runs as generated, permuted, with a run repeated, concatenated in
-one file and on stdin; the kept problems and their build names (text format) and their
-full descriptors (json format) are compared with the model.  Real `-matrix` runs on
-generated modules with build-tagged files are compared with one `-f binary` run per
-configuration + `-merge` (lines permuted / repeated / without final newline).
+Ties, all checked on every run against the tree under test, no hook:
+ G  `c12gob lessfields` reads the field order of the `less` closure from lintcmd/cmd.go
+    into Verif/C12/Generated.lean; `source_order_desc_first` re-proves on it that the whole
+    descriptor is compared before the build name (a harmless reorder stays green).
+ X1 gob-crafted runs -> real `staticcheck -show-ignored -merge -f text|json` (generated,
+    permuted, repeated, one file, stdin; mixed strategies, severities, case-inconsistent
+    check names) vs. the model and vs. the Python oracle.
+ X2 per build configuration a PLAIN run (`-f json -tags=…`, no -matrix, no -f binary) of a
+    generated module + the merge strategy of each check's documentation read from the
+    REAL registry (`c12gob registry`) + the files each configuration compiles -> the model
+    computes (a) what `-f binary` must write for that configuration from an LF checkout
+    and from a CRLF checkout in another directory (compared field by field with the
+    decoded real files), (b) the `-merge` of those files, (c) `-matrix` on stdin texts in
+    varied syntax (parsed by the model's parseBuildConfigs); all compared with the real
+    binary and with the Python oracle.
+ X3 the matrix line parser through the CLI: generated stdin texts, error line and kind
+    (`<stdin>:N couldn't parse build matrix: …`) vs. the model; a sentinel bad line makes
+    N count the configurations accepted before it.
+ X4 the gob mirror types of c12gob vs. lintcmd's: every real `-f binary` file is decoded
+    into the mirror types and re-encoded; wire type definitions and value bytes must agree.
+ Probes of the world hypotheses: analyzer names of the real registry are distinct after
+ case folding; every category a real run reports is a registered name (or compile/config/
+ staticcheck); U1000 has MergeIfAll in every real run.
 
 Oracle (independent of the model, computed here from the runs): the printed multiset is
 exactly {(d, sorted build names of the runs that reported d) | d kept by any/all}, each
@@ -22,6 +39,7 @@ import json
 import os
 import re
 import subprocess
+import threading
 
 import vlib
 
@@ -42,6 +60,26 @@ THEOREMS = [
     "Verif.C12.sortDiags_sorted_perm",
     "Verif.C12.runFromLintResult_last_wins",
     "Verif.C12.old_comparator_witness",
+    # strengthening round
+    "Verif.C12.kept_iff_strategies",
+    "Verif.C12.builds_exact_strategies",
+    "Verif.C12.case_inconsistent_witness",
+    "Verif.C12.out_any_desc_first_order",
+    "Verif.C12.out_desc_first_fields",
+    "Verif.C12.source_order_desc_first",
+    "Verif.C12.out_source_order",
+    "Verif.C12.binary_location_offset_independent",
+    "Verif.C12.binary_offsets_cleared",
+    "Verif.C12.merge_location_independent",
+    "Verif.C12.matrix_lines",
+    "Verif.C12.matrix_line_count",
+    "Verif.C12.matrix_trailing_newline",
+    "Verif.C12.matrix_blank_lines",
+    "Verif.C12.matrix_line_meaning",
+    "Verif.C12.matrix_any_all",
+    "Verif.C12.matrix_builds",
+    "Verif.C12.matrix_order_repetition",
+    "Verif.C12.matrix_newline",
 ]
 
 ANY, ALL = 0, 1
@@ -51,13 +89,17 @@ BUILDS = ["linux", "windows", "darwin", "a_1", "B", "b", "linux2", ""]
 MSGS = ["m", "m1", "M", "m 2", "mm", "n"]
 
 DESC_KEYS = ("file", "off", "line", "col", "efile", "eoff", "eline", "ecol", "cat", "msg")
+DIAG_KEYS = DESC_KEYS + ("sev", "mergeif", "build")
 
 
 # ----------------------------------------------------------------------------- generator
 def gen_group(rng, gi, nruns):
     """One independent little universe: 1-2 files, a pool of descriptors with deliberate
     collisions (same position+message under different checks / Ends / offsets), and for
-    every run: which files it checked and which descriptors it reported."""
+    every run: which files it checked and which descriptors it reported.  Severities vary
+    (the real binary is run with -show-ignored, so ignored problems are printed too);
+    a report may carry another strategy than the other reports of its descriptor
+    (mixed strategies, also the value 2 that mergeRuns' switch drops)."""
     files = ["g%d/x.go" % gi] + (["g%d/y.go" % gi] if rng.chance(1, 2) else [])
     pool = []
     npool = 1 + rng.below(5)
@@ -82,7 +124,7 @@ def gen_group(rng, gi, nruns):
             line, col = 1 + rng.below(3), 1 + rng.below(2)
             d = {"file": f, "off": 0, "line": line, "col": col,
                  "efile": "", "eoff": 0, "eline": 0, "ecol": 0,
-                 "cat": cat, "msg": rng.choice(MSGS), "sev": 0, "mergeif": mi}
+                 "cat": cat, "msg": rng.choice(MSGS), "sev": rng.choice([0, 0, 0, 1, 2]), "mergeif": mi}
             if rng.chance(1, 3):
                 d["efile"], d["eline"], d["ecol"] = f, line, col + 1 + rng.below(2)
         if base is None or rng.chance(1, 2):
@@ -93,8 +135,16 @@ def gen_group(rng, gi, nruns):
         checked = [f for f in files if rng.chance(3, 4)]
         p = 1 + rng.below(4)            # reporting probability p/4, varies per run
         diags = [dict(d) for d in pool if rng.chance(p, 4)]
+        for d in diags:
+            if rng.chance(1, 10):
+                d["mergeif"] = rng.choice([ANY, ALL, 2])       # mixed strategies
+            if rng.chance(1, 10):
+                d["sev"] = rng.below(3)
         if diags and rng.chance(1, 6):
-            diags.append(dict(rng.choice(diags)))      # same descriptor twice in one run
+            dd = dict(rng.choice(diags))               # same descriptor twice in one run: the last one counts
+            if rng.chance(1, 2):
+                dd["mergeif"], dd["sev"] = rng.choice([ANY, ALL, 2]), rng.below(3)
+            diags.append(dd)
         per_run.append((checked, diags))
     return per_run
 
@@ -157,13 +207,61 @@ CORPUS = [
      {"checked": ["x.go"], "diags": [
         {"file": "x.go", "off": 0, "line": 1, "col": 1, "cat": "SA1000", "msg": "m", "mergeif": ANY, "build": "windows"},
         {"file": "x.go", "off": 7, "line": 1, "col": 1, "cat": "SA1000", "msg": "m", "mergeif": ANY, "build": "windows"}]}],
+    # End offsets differ only (what a -f binary that forgets to clear End.Offset produces
+    # for an LF and a CRLF checkout): two distinct descriptors, each under its build
+    [{"checked": ["x.go"], "diags": [
+        {"file": "x.go", "line": 5, "col": 9, "efile": "x.go", "eoff": 67, "eline": 5, "ecol": 15, "cat": "SA4006", "msg": "m", "mergeif": ALL, "build": "unix"}]},
+     {"checked": ["x.go"], "diags": [
+        {"file": "x.go", "line": 5, "col": 9, "efile": "x.go", "eoff": 71, "eline": 5, "ecol": 15, "cat": "SA4006", "msg": "m", "mergeif": ALL, "build": "windows"}]}],
+    # mixed strategies for one descriptor (Lean: mixRuns): linux 'all' (not accepted: darwin
+    # checked x.go and is silent), windows 'any' (accepted); strategy value 7 is dropped
+    [{"checked": ["x.go"], "diags": [
+        {"file": "x.go", "line": 1, "col": 1, "cat": "U1000", "msg": "m", "mergeif": ALL, "build": "linux"},
+        {"file": "x.go", "line": 3, "col": 1, "cat": "S1", "msg": "m", "mergeif": ALL, "build": "linux"}]},
+     {"checked": ["x.go"], "diags": [
+        {"file": "x.go", "line": 3, "col": 1, "cat": "S1", "msg": "m", "mergeif": ANY, "build": "windows"}]},
+     {"checked": ["x.go"], "diags": [
+        {"file": "x.go", "line": 5, "col": 1, "cat": "S2", "msg": "m", "mergeif": 7, "build": "darwin"}]}],
+    # severities: same descriptor and build, different severity (not `equal`, same descriptor)
+    [{"checked": ["x.go"], "diags": [
+        {"file": "x.go", "line": 1, "col": 1, "cat": "SA1000", "msg": "m", "sev": 0, "mergeif": ANY, "build": "linux"}]},
+     {"checked": ["x.go"], "diags": [
+        {"file": "x.go", "line": 1, "col": 1, "cat": "SA1000", "msg": "m", "sev": 2, "mergeif": ANY, "build": "linux"}]},
+     {"checked": ["x.go"], "diags": [
+        {"file": "x.go", "line": 1, "col": 1, "cat": "SA1000", "msg": "m", "sev": 2, "mergeif": ANY, "build": "windows"}]}],
+]
+
+# Check names that differ only in letter case at one position: the hypothesis
+# CaseConsistent of the theorems is violated (Lean: case_inconsistent_witness shows the
+# property is then false for the code as it is).  No real run contains such names (probed
+# on the registry), so the oracle does not apply; these inputs tie `diagnostic.equal`'s
+# case folding to the model: real binary vs. model only.
+CORPUS_CASE = [
+    [{"checked": ["x.go"], "diags": [
+        {"file": "x.go", "line": 1, "col": 1, "cat": "SA1000", "msg": "m", "mergeif": ANY, "build": "linux"},
+        {"file": "x.go", "line": 1, "col": 1, "cat": "sa1000", "msg": "m", "mergeif": ANY, "build": "linux"}]}],
+    [{"checked": ["x.go"], "diags": [
+        {"file": "x.go", "line": 1, "col": 1, "cat": "SA1000", "msg": "m", "mergeif": ANY, "build": "linux"}]},
+     {"checked": ["x.go"], "diags": [
+        {"file": "x.go", "line": 1, "col": 1, "cat": "sa1000", "msg": "m", "mergeif": ANY, "build": "linux"}]}],
+    [{"checked": ["x.go"], "diags": [
+        {"file": "x.go", "line": 1, "col": 1, "cat": "SA1000", "msg": "m", "mergeif": ANY, "build": "linux"}]},
+     {"checked": ["x.go"], "diags": [
+        {"file": "x.go", "line": 1, "col": 1, "cat": "sa1000", "msg": "m", "mergeif": ANY, "build": "windows"},
+        {"file": "x.go", "line": 1, "col": 1, "cat": "Sa1000", "msg": "m", "mergeif": ALL, "build": "windows"}]}],
+    [{"checked": ["x.go"], "diags": [
+        {"file": "x.go", "line": 2, "col": 1, "cat": "u1000", "msg": "m", "mergeif": ALL, "build": "a"},
+        {"file": "x.go", "line": 2, "col": 1, "cat": "U1000", "msg": "m", "mergeif": ALL, "build": "a"},
+        {"file": "x.go", "line": 2, "col": 1, "cat": "U1000", "msg": "m", "sev": 1, "mergeif": ALL, "build": "b"}]},
+     {"checked": ["x.go"], "diags": [
+        {"file": "x.go", "line": 2, "col": 1, "cat": "U1000", "msg": "m", "mergeif": ALL, "build": "b"}]}],
 ]
 
 
 def norm_diag(d):
     out = {"file": "", "off": 0, "line": 0, "col": 0, "efile": "", "eoff": 0, "eline": 0, "ecol": 0,
            "cat": "", "msg": "", "sev": 0, "mergeif": 0, "build": ""}
-    out.update(d)
+    out.update({k: v for k, v in d.items() if k in out})
     return out
 
 
@@ -259,14 +357,37 @@ def enc_runs(runs):
     return " ".join(toks)
 
 
+def enc_reg(reg):
+    """reg: list of (analyzer name, Doc.MergeIf)"""
+    return " ".join([str(len(reg))] + ["%s %d" % (vlib.hexs(n), m) for n, m in reg])
+
+
+def enc_raw_diag(d):
+    return " ".join([vlib.hexs(d["file"]), str(d["off"]), str(d["line"]), str(d["col"]),
+                     vlib.hexs(d["efile"]), str(d["eoff"]), str(d["eline"]), str(d["ecol"]),
+                     vlib.hexs(d["cat"]), vlib.hexs(d["msg"]), str(d["sev"]), "1" if d["src"] else "0"])
+
+
+def enc_raw_res(checked, diags):
+    return " ".join([str(len(checked))] + [vlib.hexs(c) for c in checked] + [str(len(diags))] + [enc_raw_diag(d) for d in diags])
+
+
+def enc_prun(binary, cwd, name, checked, diags):
+    return " ".join(["1" if binary else "0", vlib.hexs(cwd), vlib.hexs(name), enc_raw_res(checked, diags)])
+
+
+def enc_strs(xs):
+    return " ".join([str(len(xs))] + [vlib.hexs(x) for x in xs])
+
+
 def unhex(s):
     return "" if s == "-" else bytes.fromhex(s).decode()
 
 
 def dec_model(line):
-    """`n entry*`, entry = 10 descriptor tokens, k, k names -> {desc: [names]} + duplicate flag"""
+    """`n entry*`, entry = 10 descriptor tokens, k, k names -> [(desc, [names])]"""
     t = line.split()
-    if not t or t[0] == "bad-op":
+    if not t or t[0] in ("bad-op", "outside", "err"):
         raise vlib.HarnessError("model rejected a case: %r" % line[:200])
     n = int(t[0])
     i = 1
@@ -281,6 +402,36 @@ def dec_model(line):
     if i != len(t):
         raise vlib.HarnessError("trailing tokens in model output")
     return out
+
+
+def dec_binout(line):
+    """`<ncf> cf* <nd> diag*` (diag = 13 tokens) -> (checked, [diag dict])"""
+    t = line.split()
+    if not t or t[0] in ("bad-op", "outside"):
+        raise vlib.HarnessError("model rejected a binout case: %r" % line[:200])
+    n = int(t[0])
+    checked = [unhex(x) for x in t[1:1 + n]]
+    i = 1 + n
+    nd = int(t[i])
+    i += 1
+    diags = []
+    for _ in range(nd):
+        f, off, ln, col, ef, eoff, el, ec, cat, msg, sev, mi, b = t[i:i + 13]
+        diags.append({"file": unhex(f), "off": int(off), "line": int(ln), "col": int(col), "efile": unhex(ef),
+                      "eoff": int(eoff), "eline": int(el), "ecol": int(ec), "cat": unhex(cat), "msg": unhex(msg),
+                      "sev": int(sev), "mergeif": int(mi), "build": unhex(b)})
+        i += 13
+    if i != len(t):
+        raise vlib.HarnessError("trailing tokens in model binout output")
+    return checked, diags
+
+
+MODEL_LOCK = threading.Lock()
+
+
+def run_model(ctx, lines):
+    with MODEL_LOCK:
+        return vlib.run_model(ctx, "C12", lines)
 
 
 # ----------------------------------------------------------------------------- crafted runs
@@ -312,11 +463,16 @@ def flat(files):
     return [r for f in files for r in f]
 
 
-def run_gob(ctx, gob, sc, jobs):
+GOB_SEQ = [0]
+
+
+def run_gob(ctx, gob, sc, jobs, par=None):
     inp = "".join(json.dumps(j) + "\n" for j in jobs)
     env = vlib.go_env({"GOMAXPROCS": "2"})
-    d = ctx.path("gobjobs", "x")
-    p = subprocess.run([gob, "run", "-bin", sc, "-dir", os.path.dirname(d), "-j", str(max(4, vlib.NCPU))],
+    with MODEL_LOCK:
+        GOB_SEQ[0] += 1
+        d = ctx.path("gobjobs%d" % GOB_SEQ[0], "x")
+    p = subprocess.run([gob, "run", "-bin", sc, "-dir", os.path.dirname(d), "-j", str(par or max(4, vlib.NCPU // 2))],
                        input=inp, stdout=subprocess.PIPE, stderr=subprocess.PIPE, text=True, env=env, timeout=3000)
     if p.returncode != 0:
         raise vlib.HarnessError("c12gob run failed: " + p.stderr[-2000:])
@@ -338,9 +494,13 @@ def classify(runs):
     tags = set()
     maps = [({desc_of(d): d for d in r["diags"]}, set(r["checked"])) for r in runs]
     alld = {}
+    strategies = collections.defaultdict(set)
+    sevs = collections.defaultdict(set)
     for m, _ in maps:
         for k, d in m.items():
             alld.setdefault(k, d)
+            strategies[k].add(d["mergeif"])
+            sevs[(k, d["build"])].add(d["sev"])
     for k, d in alld.items():
         if d["mergeif"] == ALL and k not in exp:
             tags.add("all_dropped")
@@ -348,6 +508,10 @@ def classify(runs):
             tags.add("all_kept_despite_silent_unchecked_run")
         if k in exp and len(exp[k]) > 1:
             tags.add("builds_merged")
+        if len(strategies[k]) > 1:
+            tags.add("mixed_strategies")
+    if any(len(v) > 1 for v in sevs.values()):
+        tags.add("same_descriptor_and_build_different_severity")
     by_pm = collections.defaultdict(set)
     for k in exp:
         by_pm[(k[0], k[2], k[3], k[9])].add(k)
@@ -361,52 +525,52 @@ def classify(runs):
     return tags
 
 
-def check_crafted(ctx, gob, sc, cases, rng, label):
+CRAFT_ARGS = ["-show-ignored"]
+
+
+def check_crafted(ctx, gob, sc, cases, rng, label, oracle=True):
     """cases: list of run lists. Returns (oracle_failures, model_diffs, stats)."""
     jobs, meta = [], []
     for ci, runs in enumerate(cases):
         for (vname, files, stdin) in variants(rng.fork("v%d" % ci), runs, not ctx.quick):
             fmts = ["text", "json"] if vname in ("base", "stdin", "onefile") else ["text"]
-            jobs.append({"id": len(jobs), "files": files, "stdin": stdin, "formats": fmts})
+            jobs.append({"id": len(jobs), "files": files, "stdin": stdin, "formats": fmts, "args": CRAFT_ARGS})
             meta.append((ci, vname))
     res = run_gob(ctx, gob, sc, jobs)
-    model = vlib.run_model(ctx, "C12", [enc_runs(flat(j["files"])) for j in jobs]) if ctx.c12_model else None
+    model = run_model(ctx, [enc_runs(flat(j["files"])) for j in jobs])
     fails, diffs = [], []
     stats = collections.Counter()
     base_text = {}
     for idx, (j, r, (ci, vname)) in enumerate(zip(jobs, res, meta)):
         runs = cases[ci]
-        exp = expected(runs)                     # of the *generated* runs: variants must agree with it
-        exp_text = ms(text_proj(k, v) for k, v in exp.items())
-        exp_json = ms(json_proj(k) for k in exp)
         got_text = ms(parse_text(r["out"]["text"]["stdout"]))
-        why = []
-        if got_text != exp_text:
-            why.append("text output is not {kept problems, each once, with exactly its build names}")
-        if "json" in r["out"]:
-            got_json = ms(parse_json(r["out"]["json"]["stdout"]))
-            if got_json != exp_json:
-                why.append("json output is not {kept problems, each once}")
-        else:
-            got_json = None
-        if vname == "base":
-            base_text[ci] = got_text
-        elif ci in base_text and got_text != base_text[ci]:
-            why.append("output differs from the output for the same runs in generated order (variant %s)" % vname)
+        got_json = ms(parse_json(r["out"]["json"]["stdout"])) if "json" in r["out"] else None
         stats["invocations"] += len(r["out"])
-        if why:
-            fails.append({"case": ci, "label": label, "variant": vname, "why": why, "job": j,
-                          "expected_text": show_ms(exp_text), "got_text": show_ms(got_text),
-                          "expected_json": show_ms(exp_json), "got_json": show_ms(got_json) if got_json is not None else None,
-                          "raw_text": r["out"]["text"]["stdout"]})
-        if model is not None:
-            mo = dec_model(model[idx])
-            mo_text = ms(text_proj(k, v) for k, v in mo)
-            mo_json = ms(json_proj(k) for k, v in mo)
-            if mo_text != got_text or (got_json is not None and mo_json != got_json):
-                diffs.append({"case": ci, "label": label, "variant": vname, "job": j,
-                              "model_text": show_ms(mo_text), "impl_text": show_ms(got_text),
-                              "model_json": show_ms(mo_json), "impl_json": show_ms(got_json) if got_json is not None else None})
+        why = []
+        if oracle:
+            exp = expected(runs)                 # of the *generated* runs: variants must agree with it
+            exp_text = ms(text_proj(k, v) for k, v in exp.items())
+            exp_json = ms(json_proj(k) for k in exp)
+            if got_text != exp_text:
+                why.append("text output is not {kept problems, each once, with exactly its build names}")
+            if got_json is not None and got_json != exp_json:
+                why.append("json output is not {kept problems, each once}")
+            if vname == "base":
+                base_text[ci] = got_text
+            elif ci in base_text and got_text != base_text[ci]:
+                why.append("output differs from the output for the same runs in generated order (variant %s)" % vname)
+            if why:
+                fails.append({"case": ci, "label": label, "variant": vname, "why": why, "job": j,
+                              "expected_text": show_ms(exp_text), "got_text": show_ms(got_text),
+                              "expected_json": show_ms(exp_json), "got_json": show_ms(got_json) if got_json is not None else None,
+                              "raw_text": r["out"]["text"]["stdout"]})
+        mo = dec_model(model[idx])
+        mo_text = ms(text_proj(k, v) for k, v in mo)
+        mo_json = ms(json_proj(k) for k, v in mo)
+        if mo_text != got_text or (got_json is not None and mo_json != got_json):
+            diffs.append({"case": ci, "label": label, "variant": vname, "job": j,
+                          "model_text": show_ms(mo_text), "impl_text": show_ms(got_text),
+                          "model_json": show_ms(mo_json), "impl_json": show_ms(got_json) if got_json is not None else None})
     return fails, diffs, stats
 
 
@@ -418,7 +582,7 @@ def shrink(ctx, gob, sc, fail):
     stdin = False
 
     def bad(rs):
-        j = {"id": 0, "files": [[r] for r in rs], "stdin": stdin, "formats": ["text", "json"]}
+        j = {"id": 0, "files": [[r] for r in rs], "stdin": stdin, "formats": ["text", "json"], "args": CRAFT_ARGS}
         r = run_gob(ctx, gob, sc, [j])[0]
         exp = expected(rs)
         return ms(parse_text(r["out"]["text"]["stdout"])) != ms(text_proj(k, v) for k, v in exp.items()) or \
@@ -452,52 +616,125 @@ def shrink(ctx, gob, sc, fail):
                     break
             if changed:
                 break
-    j = {"id": 0, "files": [[r] for r in runs], "stdin": False, "formats": ["text", "json"]}
+    j = {"id": 0, "files": [[r] for r in runs], "stdin": False, "formats": ["text", "json"], "args": CRAFT_ARGS}
     r = run_gob(ctx, gob, sc, [j])[0]
     exp = expected(runs)
     return {"runs": runs, "expected_text": show_ms(ms(text_proj(k, v) for k, v in exp.items())),
             "got_text_raw": r["out"]["text"]["stdout"], "got_json_raw": r["out"]["json"]["stdout"]}
 
 
-# ----------------------------------------------------------------------------- real -matrix
-CONSTRAINTS = [None, "a", "!a", "b", "!b", "a && b", "a || b", "c"]
-CONFIG_POOL = [("ca", ["a"]), ("cb", ["b"]), ("cab", ["a", "b"]), ("none", []), ("cc", ["c"]), ("cac", ["a", "c"])]
+# ----------------------------------------------------------------------------- registry, comparator (G)
+FIELD_OF_PATH = {
+    "Position.Filename": "posFile", "Position.Line": "posLine", "Position.Column": "posCol", "Position.Offset": "posOff",
+    "End.Filename": "endFile", "End.Line": "endLine", "End.Column": "endCol", "End.Offset": "endOff",
+    "Category": "cat", "Message": "msg", "BuildName": "build", "Severity": "sev", "MergeIf": "mergeIf",
+}
+GENERATED_LEAN = os.path.join(vlib.LEAN_DIR, "Verif", "C12", "Generated.lean")
 
 
-def gen_module(rng, d, mi):
-    """A one-package module without imports. Problems:
+def generated_lean(fields):
+    return ("import Verif.C12.Pipeline\n/-\nGENERATED by checks/c12.py on every run from lintcmd/cmd.go of the tree under test\n"
+            "(`c12gob lessfields`, tie G): the order in which the `less` closure that\nprintDiagnostics passes to sort.Slice "
+            "compares the fields of two diagnostics.\nDo not edit.\n-/\nnamespace Verif.C12.Generated\n\n"
+            "def lessFields : List Field :=\n  [" + ", ".join("." + f for f in fields) + "]\n\nend Verif.C12.Generated\n")
+
+
+def extract_comparator(ctx, gob):
+    """tie G. Returns a description for the evidence; rewrites Generated.lean iff the order changed."""
+    rc, so, se = vlib.run([gob, "lessfields", os.path.join(vlib.REPO, "lintcmd", "cmd.go")], env=vlib.go_env(), timeout=120)
+    if rc != 0:
+        raise vlib.HarnessError("c12gob lessfields failed: " + se[-800:])
+    j = json.loads(so)
+    if not j.get("ok"):
+        ctx.notes.append("tie G skipped: the less closure of printDiagnostics has a shape the extractor does not read (%s); "
+                         "Generated.lean left as it is, the comparator is tied by X only" % j.get("why"))
+        return {"extracted": False, "why": j.get("why")}
+    unknown = [p for p in j["fields"] if p not in FIELD_OF_PATH]
+    if unknown:
+        ctx.notes.append("tie G skipped: the comparator compares fields the model does not have: %s" % unknown)
+        return {"extracted": False, "why": "unknown fields %s" % unknown, "paths": j["fields"]}
+    fields = [FIELD_OF_PATH[p] for p in j["fields"]]
+    if vlib.write_if_changed(GENERATED_LEAN, generated_lean(fields)):
+        ctx.notes.append("Generated.lean rewritten: comparator field order is now %s" % fields)
+    return {"extracted": True, "paths": j["fields"], "fields": fields}
+
+
+def load_registry(ctx, gob):
+    rc, so, se = vlib.run([gob, "registry"], env=vlib.go_env(), timeout=120)
+    if rc != 0:
+        raise vlib.HarnessError("c12gob registry failed: " + se[-800:])
+    j = json.loads(so)
+    if (j["merge_if_any"], j["merge_if_all"]) != (ANY, ALL):
+        raise vlib.HarnessError("lint.MergeIfAny/MergeIfAll are no longer 0/1: the model's encoding must be updated")
+    return [(e["name"], e["mergeif"]) for e in j["analyzers"] if e["default"]]
+
+
+def doc_strategy(reg_map, cat):
+    """the strategy a diagnostic of check `cat` must carry: its documentation's; U1000 problems are
+    created by linter.lint with MergeIfAll; categories without analyzer keep the zero value"""
+    if cat == "U1000":
+        return ALL
+    return reg_map.get(cat.lower(), ANY)
+
+
+# ----------------------------------------------------------------------------- real runs on generated modules
+CONSTRAINTS = [None, "a", "!a", "b", "!b", "a && b", "a || b", "c", "!c"]
+CONFIG_POOL = [("ca", ["a"]), ("cb", ["b"]), ("cab", ["a", "b"]), ("none", []), ("cc", ["c"]), ("cac", ["a", "c"]),
+               ("C_bc", ["b", "c"]), ("_9", ["a", "b", "c"])]
+
+
+def holds(constraint, tags):
+    if not constraint:
+        return True
+    e = re.sub(r"[abc]", lambda m: " True " if m.group(0) in tags else " False ", constraint)
+    e = e.replace("&&", " and ").replace("||", " or ").replace("!", " not ")
+    return bool(eval(e, {"__builtins__": {}}))
+
+
+def gen_module(rng, mi, thorough):
+    """A one-package module without imports -> (files: name -> (constraint, text), configs).  Problems:
        any  SA4000 `x == x` (syntactic; not for floats) — in shared and in tagged files,
             and on a type that is float64 under tag a and int otherwise (varies by build);
        all  SA4003 `x < 0` on a type that is uint under tag b and int otherwise;
-       all  U1000 functions in shared files that only some tagged file uses."""
-    os.makedirs(d, exist_ok=True)
-    with open(os.path.join(d, "go.mod"), "w") as f:
-        f.write("module example.com/mx%d\n\ngo 1.21\n" % mi)
+       all  S1002 `x == KC` where KC is a constant under tag c and a variable otherwise;
+       all  U1000 functions in shared files that only some tagged file uses.
+    The first item of shared0.go is always an 'all' check other than U1000 (SA4003 or S1002) that
+    depends on a tag, and the configurations always contain one with and one without that tag: the
+    problem is reported under a strict subset of the configurations that check the file."""
     nsh = 1 + rng.below(2)
     files = {}
     users = []          # (constraint, function name)
+    forced = 2 if rng.chance(1, 2) else 5
+    need = "b" if forced == 2 else "c"
     for s in range(nsh):
         lines = ["package p", ""]
         for k in range(1 + rng.below(3)):
             n = "s%d_%d" % (s, k)
-            kind = rng.below(5)
+            kind = forced if (s, k) == (0, 0) else rng.below(6)
             if kind == 0:
                 lines += ["func any_%s(x int) bool { return x == x }" % n, "var _ = any_%s" % n, ""]
             elif kind == 1:
                 lines += ["func nan_%s(x FA) bool { return x == x }" % n, "var _ = nan_%s" % n, ""]
             elif kind == 2:
-                lines += ["func cmp_%s(x TB) bool { return x < 0 }" % n, "var _ = cmp_%s" % n, ""]
+                if rng.chance(1, 2):
+                    lines += ["func cmp_%s(x TB) bool { return x < 0 }" % n, "var _ = cmp_%s" % n, ""]
+                else:       # the End of the problem is on a later line than its start
+                    lines += ["func cmp_%s(x TB) bool {" % n, "\treturn x <", "\t\t0", "}", "var _ = cmp_%s" % n, ""]
             elif kind == 3:
                 lines += ["func unused_%s() {}" % n, ""]
                 if rng.chance(2, 3):
                     users.append((rng.choice(CONSTRAINTS[1:]), "unused_%s" % n))
-            else:
+            elif kind == 4:
                 lines += ["func both_%s(x TB, y FA) bool { return x < 0 || y == y }" % n, "var _ = both_%s" % n, ""]
+            else:
+                lines += ["func kc_%s(x bool) int {" % n, "\tif x == KC {", "\t\treturn 1", "\t}", "\treturn 0", "}", "var _ = kc_%s" % n, ""]
         files["shared%d.go" % s] = (None, lines)
     files["ta.go"] = ("a", ["package p", "", "type FA = float64", ""])
     files["tna.go"] = ("!a", ["package p", "", "type FA = int", ""])
     files["tb.go"] = ("b", ["package p", "", "type TB = uint", ""])
     files["tnb.go"] = ("!b", ["package p", "", "type TB = int", ""])
+    files["tc.go"] = ("c", ["package p", "", "const KC = true", ""])
+    files["tnc.go"] = ("!c", ["package p", "", "var KC = true", ""])
     for t in range(1 + rng.below(3)):
         c = rng.choice(CONSTRAINTS[1:])
         lines = ["package p", ""]
@@ -511,14 +748,43 @@ def gen_module(rng, d, mi):
         files["tag%d.go" % t] = (c, lines)
     for i, (c, fn) in enumerate(users):
         files["use%d.go" % i] = (c, ["package p", "", "var _ = %s" % fn, ""])
+    texts = {"go.mod": (None, "module example.com/mx%d\n\ngo 1.21\n" % mi)}
     for name, (c, lines) in files.items():
-        with open(os.path.join(d, name), "w") as f:
-            if c:
-                f.write("//go:build %s\n\n" % c)
-            f.write("\n".join(lines))
-    ncfg = 2 + rng.below(3)
-    cfgs = rng.shuffle(CONFIG_POOL)[:ncfg]
-    return cfgs
+        texts[name] = (c, ("//go:build %s\n\n" % c if c else "") + "\n".join(lines))
+    ncfg = 2 + rng.below(3 if thorough else 2)
+    pool = rng.shuffle(CONFIG_POOL)
+    cfgs = [next(c for c in pool if need in c[1]), next(c for c in pool if need not in c[1])]
+    cfgs += [c for c in pool if c not in cfgs][:ncfg - 2]
+    return texts, rng.shuffle(cfgs)
+
+
+def materialise(texts, d, crlf):
+    os.makedirs(os.path.join(d, "sub"), exist_ok=True)
+    for name, (_, text) in texts.items():
+        with open(os.path.join(d, name), "wb") as f:
+            b = text.encode()
+            if crlf and name != "go.mod":
+                b = b.replace(b"\n", b"\r\n")
+            f.write(b)
+
+
+def cfg_variants(rng, name, tags):
+    """Spellings of one configuration: (line text, envs, flags as parseBuildConfig must return them)."""
+    c, s = ",".join(tags), " ".join(tags)
+    if not tags:
+        return rng.choice([("%s:" % name, [], []), ("%s: " % name, [], []), ("%s: -tags=" % name, [], ["-tags="]),
+                           ("  %s:\t" % name, [], []), ("%s: X_UNUSED=1" % name, ["X_UNUSED=1"], [])])
+    return rng.choice([
+        ("%s: -tags=%s" % (name, c), [], ["-tags=" + c]),
+        ("%s: -tags %s" % (name, c), [], ["-tags", c]),
+        ("%s: \"-tags=%s\"" % (name, s), [], ["-tags=" + s]),
+        ("%s: -tags \"%s\"" % (name, s), [], ["-tags", s]),
+        ("%s: GOFLAGS=-tags=%s" % (name, c), ["GOFLAGS=-tags=" + c], []),
+        (" %s:   -tags=%s  " % (name, c), [], ["-tags=" + c]),
+        ("%s: \t-tags=%s" % (name, c), [], ["-tags=" + c]),
+        ("%s: X_UNUSED=1 -tags=%s" % (name, c), ["X_UNUSED=1"], ["-tags=" + c]),
+        ("%s: -ta\"gs=\"%s" % (name, c), [], ["-tags=" + c]),
+    ])
 
 
 def cfg_line(c):
@@ -527,95 +793,296 @@ def cfg_line(c):
 
 
 def sc_run(sc, args, cwd, stdin, cache):
-    env = vlib.go_env({"STATICCHECK_CACHE": cache})
+    env = vlib.go_env({"STATICCHECK_CACHE": cache, "GOMAXPROCS": "4"})
     p = subprocess.run([sc] + args, cwd=cwd, input=stdin, stdout=subprocess.PIPE, stderr=subprocess.PIPE, env=env, timeout=900)
     return p.returncode, p.stdout, p.stderr.decode(errors="replace")
 
 
-def matrix_module(ctx, gob, sc, cache, d, cfgs, r):
-    """All observations for one generated module directory `d` with configurations `cfgs`."""
+class Offsets:
+    """byte offset of (line, column) in a file, as go/token computes it"""
+    def __init__(self):
+        self.starts = {}
+
+    def of(self, path, line, col):
+        if not path or line < 1:
+            return 0
+        if path not in self.starts:
+            b = open(path, "rb").read()
+            st = [0]
+            for i, ch in enumerate(b):
+                if ch == 10:
+                    st.append(i + 1)
+            self.starts[path] = st
+        return self.starts[path][line - 1] + col - 1
+
+
+def short_path(cwd, p):
+    """lintcmd.shortPath: relative to the working directory if that is shorter"""
+    if not p:
+        return p
+    rel = os.path.relpath(p, cwd)
+    return rel if len(rel) < len(p) else p
+
+
+def matrix_module(ctx, gob, sc, cache, base, texts, cfgs, r, reg, with_sub):
+    """All observations for one generated module with configurations `cfgs` (name, tags)."""
     from concurrent.futures import ThreadPoolExecutor
     fails, diffs = [], []
     stats = collections.Counter()
+    reg_map = {n.lower(): m for n, m in reg}
+    lf = os.path.join(base, "lf")
+    crlf = os.path.join(base, "crlf", "deeper", "checkout")
+    materialise(texts, lf, False)
+    materialise(texts, crlf, True)
+    gofiles = sorted(n for n in texts if n.endswith(".go"))
+    offs = Offsets()
+    snapshot = {n: t for n, (_, t) in texts.items()}
 
-    # one -f binary run per configuration (a one-line matrix gives the run its name)
-    def binrun(c):
-        rc, so, se = sc_run(sc, ["-matrix", "-f", "binary", "./..."], d, (cfg_line(c) + "\n").encode(), cache)
+    def fail(what, **kw):
+        d = {"module_files": snapshot, "configs": [list(c) for c in cfgs], "what": what}
+        d.update(kw)
+        fails.append(d)
+
+    # (a) one PLAIN run per configuration: no -matrix, no -f binary, json output
+    def plain(c):
+        args = ["-show-ignored", "-f", "json"] + (["-tags", ",".join(c[1])] if c[1] else []) + ["./..."]
+        rc, so, se = sc_run(sc, args, lf, None, cache)
+        if rc not in (0, 1) or se.strip():
+            raise vlib.HarnessError("plain staticcheck run failed in %s for %s: rc=%d %s" % (lf, c, rc, se[-800:]))
+        out = []
+        for line in so.decode().splitlines():
+            j = json.loads(line)
+            if j["code"] in ("compile", "config"):
+                raise vlib.HarnessError("generated module %s does not compile under %s: %s" % (lf, c, j["message"]))
+            if j.get("severity") == "ignored":
+                raise vlib.HarnessError("generated module has an ignored problem")
+            out.append({"file": j["location"]["file"], "line": j["location"]["line"], "col": j["location"]["column"],
+                        "efile": j["end"]["file"], "eline": j["end"]["line"], "ecol": j["end"]["column"],
+                        "cat": j["code"], "msg": j["message"], "sev": 0, "src": j["code"] == "U1000"})
+        return c[0], out
+
+    with ThreadPoolExecutor(max_workers=3) as ex:
+        raws = dict(ex.map(plain, cfgs))
+    stats["invocations"] += len(cfgs)
+    for name, ds in raws.items():
+        for d in ds:
+            if d["cat"].lower() not in reg_map and d["cat"] not in ("compile", "config", "staticcheck"):
+                fail("world hypothesis probe: a real run reports category %r, which is not a registered analyzer" % d["cat"])
+
+    def checked_of(c, d):
+        return [os.path.join(d, n) for n in gofiles if holds(texts[n][0], c[1])]
+
+    def raw_at(c, d, cwd_rel=""):
+        """the findings of configuration c as the runner reports them in checkout d (absolute paths, real offsets)"""
+        out = []
+        for x in raws[c[0]]:
+            y = dict(x)
+            for fk, lk, ck, ok in (("file", "line", "col", "off"), ("efile", "eline", "ecol", "eoff")):
+                if y[fk]:
+                    y[fk] = os.path.join(d, os.path.relpath(y[fk], lf))
+                y[ok] = offs.of(y[fk], y[lk], y[ck])
+            out.append(y)
+        return out
+
+    def doc_run(c, d, cwd):
+        """the run of configuration c after -f binary from working directory cwd, as the property demands it"""
+        def rel(p):
+            return os.path.relpath(p, cwd).replace(os.sep, "/") if p else p
+        ds = []
+        for x in raw_at(c, d):
+            ds.append({"file": rel(x["file"]), "off": 0, "line": x["line"], "col": x["col"], "efile": rel(x["efile"]),
+                       "eoff": 0, "eline": x["eline"], "ecol": x["ecol"], "cat": x["cat"], "msg": x["msg"], "sev": 0,
+                       "mergeif": doc_strategy(reg_map, x["cat"]), "build": c[0]})
+        return {"checked": [rel(p) for p in checked_of(c, d)], "diags": ds}
+
+    # (b) one real -f binary run per configuration, alternately from the LF and the CRLF checkout
+    where = {}
+    for i, c in enumerate(cfgs):
+        where[c[0]] = crlf if i % 2 == 1 else lf
+    if r.chance(1, 2):
+        where = {k: (crlf if v == lf else lf) for k, v in where.items()}
+    invs = [(c, where[c[0]], where[c[0]], "./...") for c in cfgs]
+    if with_sub:
+        # the same two configurations from the sub directory of both checkouts (paths with "..")
+        invs += [(cfgs[0], lf, os.path.join(lf, "sub"), "../..."), (cfgs[1], crlf, os.path.join(crlf, "sub"), "../...")]
+
+    def binrun(iv):
+        c, d, cwd, pat = iv
+        rc, so, se = sc_run(sc, ["-matrix", "-f", "binary", pat], cwd, (cfg_line(c) + "\n").encode(), cache)
         if rc != 0 or se.strip():
-            raise vlib.HarnessError("staticcheck -matrix -f binary failed in %s for %s: rc=%d %s" % (d, c, rc, se[-800:]))
-        p = os.path.join(d, "run_%s.bin" % c[0])
+            return "`echo '%s' | staticcheck -matrix -f binary %s` in %s: rc=%d stderr: %s" % (cfg_line(c), pat, os.path.relpath(cwd, base), rc, se[-800:])
+        p = os.path.join(base, "run_%s_%s.bin" % (c[0], "sub" if pat != "./..." else "root"))
         with open(p, "wb") as f:
             f.write(so)
-        return c[0], p
+        return p
 
-    with ThreadPoolExecutor(max_workers=4) as ex:
-        bins = dict(ex.map(binrun, cfgs))
-    rc, so, se = vlib.run([gob, "dump"] + [bins[c[0]] for c in cfgs], env=vlib.go_env())
+    with ThreadPoolExecutor(max_workers=3) as ex:
+        bins = list(ex.map(binrun, invs))
+    stats["invocations"] += len(invs)
+    broken = [b for b in bins if not b.endswith(".bin")]
+    if broken:
+        # the plain run of the same configuration worked: a configuration given as a one-line matrix does not run
+        fail("a one-line build matrix naming a configuration that lints fine with -tags does not produce a -f binary run", got=broken,
+             expected=["one run per configuration"])
+        return fails, diffs, stats, {"configs": [cfg_line(c) for c in cfgs]}
+    rc, so, se = vlib.run([gob, "dump"] + bins, env=vlib.go_env())
     if rc != 0:
         raise vlib.HarnessError("c12gob dump failed: " + se[-800:])
-    runs = []
+    decoded = []
     for line in so.splitlines():
         rs = json.loads(line)["runs"]
         if len(rs) != 1:
             raise vlib.HarnessError("expected one run per -f binary file, got %d" % len(rs))
-        runs += rs
-    if any(dg["cat"] == "compile" for rr in runs for dg in rr["diags"]):
-        raise vlib.HarnessError("generated module %s does not compile under some configuration" % d)
-    exp = expected(runs)
+        decoded.append(rs[0])
+    # X4: the mirror types against the real gob stream
+    rc, so, se = vlib.run([gob, "roundtrip"] + bins, env=vlib.go_env())
+    if rc != 0:
+        raise vlib.HarnessError("c12gob roundtrip failed: " + se[-800:])
+    for line in so.splitlines():
+        j = json.loads(line)
+        if not j["equal"]:
+            raise vlib.HarnessError("harness/cmd/c12gob's mirror of lintcmd.lintResult/diagnostic no longer matches the gob stream the "
+                                    "real binary writes (update the mirror types): %s\nreal: %s\nmirror: %s" % (j.get("detail"), j.get("real_types"), j.get("mirror_types")))
+    stats["roundtrips"] += len(bins)
+
+    # model of what -f binary writes (lintRun + binOut) vs. the decoded real files
+    lines = ["binout %s %s" % (enc_reg(reg), enc_prun(True, cwd, c[0], checked_of(c, d), raw_at(c, d))) for (c, d, cwd, pat) in invs]
+    for (c, d, cwd, pat), line, real in zip(invs, run_model(ctx, lines), decoded):
+        mchecked, mdiags = dec_binout(line)
+        mm = ms(tuple(x[k] for k in DIAG_KEYS) for x in mdiags)
+        rm = ms(tuple(x[k] for k in DIAG_KEYS) for x in real["diags"])
+        aux = [a for x in real["diags"] for a in (x.get("aux") or []) if a["off"] != 0 or os.path.isabs(a["file"])]
+        if sorted(mchecked) != sorted(real["checked"]) or mm != rm or aux:
+            diffs.append({"what": "-f binary output of one configuration differs from the model (lintRun: MergeIf of the check's documentation, "
+                                  "BuildName; binOut: paths relative to the working directory, offsets cleared)",
+                          "module_files": snapshot, "config": list(c), "checkout": "crlf" if d == crlf else "lf", "cwd": os.path.relpath(cwd, base),
+                          "model_checked": sorted(mchecked), "real_checked": sorted(real["checked"]),
+                          "only_model": show_ms([(t, n) for t, n in mm if (t, n) not in rm]),
+                          "only_real": show_ms([(t, n) for t, n in rm if (t, n) not in mm]), "related_not_normalised": aux})
+        for x in real["diags"]:
+            if x["cat"] == "U1000" and x["mergeif"] != ALL:
+                fail("world hypothesis probe: a U1000 problem without MergeIfAll in a real run", config=list(c))
+        stats["binout_compared"] += 1
+
+    # the property's expectation, from the plain runs + the documentation's strategies
+    root_invs = invs[:len(cfgs)]
+    runs_doc = [doc_run(c, d, cwd) for (c, d, cwd, pat) in root_invs]
+    exp = expected(runs_doc)
     exp_text = ms(text_proj(k, v) for k, v in exp.items())
-    tags = classify(runs)
+    exp_json = ms(json_proj(k) for k in exp)
+    tags = classify(runs_doc)
+    alld = {}
+    for rr in runs_doc:
+        for dg in rr["diags"]:
+            alld.setdefault(desc_of(dg), dg)
+    for k, dg in alld.items():
+        if dg["mergeif"] == ALL and dg["cat"] != "U1000" and k not in exp and dg["file"].startswith("shared"):
+            tags.add("documented_all_check_not_U1000_dropped_in_shared_file")
     for t in tags:
         stats["tag:" + t] += 1
+    if "documented_all_check_not_U1000_dropped_in_shared_file" not in tags:
+        raise vlib.HarnessError("generator invariant broken: no 'all' check other than U1000 fires under a strict subset of the configurations (%s)" % base)
     stats["modules"] += 1
     stats["configs"] += len(cfgs)
     stats["problems_kept"] += len(exp)
-    lines = [cfg_line(c) for c in cfgs]
+
+    # stdin texts for -matrix: canonical, and one in varied syntax / order / repetition / blank lines / CRLF
+    canon = "\n".join(cfg_line(c) for c in cfgs) + "\n"
+    table = {}
+    vlines = []
+    order = r.shuffle(cfgs) + [r.choice(cfgs)]
+    for c in order:
+        text, envs, flags = cfg_variants(r, c[0], c[1])
+        table[(tuple(envs), tuple(flags))] = c
+        vlines.append(text)
+        if r.chance(1, 3):
+            vlines.append(r.choice(["", "  ", "\t"]))
+    varied = "".join(l + r.choice(["\n", "\r\n", "\n\n"]) for l in vlines[:-1]) + vlines[-1] + r.choice(["", "\n", "\r\n"])
+    for c in cfgs:
+        table.setdefault(((), tuple(["-tags=" + ",".join(c[1])] if c[1] else [])), c)
+
+    def enc_table():
+        toks = [str(len(table))]
+        for (envs, flags), c in table.items():
+            toks += [enc_strs(list(envs)), enc_strs(list(flags)), enc_raw_res(checked_of(c, lf), raw_at(c, lf))]
+        return " ".join(toks)
+
+    bin_of = dict(zip([iv[0][0] for iv in root_invs], bins))
     obsv = [
-        ("-merge of per-configuration -f binary runs", ["-merge"] + [bins[c[0]] for c in cfgs], None),
-        ("-merge, files permuted", ["-merge"] + [bins[c[0]] for c in r.shuffle(cfgs)], None),
-        ("-matrix", ["-matrix", "./..."], ("\n".join(lines) + "\n").encode()),
-        ("-matrix, lines permuted", ["-matrix", "./..."], ("\n".join(r.shuffle(lines)) + "\n").encode()),
-        ("-matrix, a configuration repeated", ["-matrix", "./..."], ("\n".join(lines + [lines[0]]) + "\n").encode()),
-        ("-matrix, blank lines and no final newline", ["-matrix", "./..."], ("\n" + "\n\n".join(lines)).encode()),
+        ("-merge of per-configuration -f binary runs (LF and CRLF checkouts in different directories)", "text",
+         ["-merge"] + [bin_of[c[0]] for c in cfgs], None, base),
+        ("-merge -f json of the same files, permuted", "json",
+         ["-merge", "-f", "json"] + [bin_of[c[0]] for c in r.shuffle(cfgs)], None, base),
+        ("-matrix", "text", ["-matrix", "./..."], canon.encode(), lf),
+        ("-matrix, configurations in varied syntax, permuted, one repeated, blank lines, CRLF, final newline or not", "text",
+         ["-matrix", "./..."], varied.encode(), lf),
     ]
+    mlines = [
+        "pipe %s %d %s" % (enc_reg(reg), len(root_invs), " ".join(enc_prun(True, cwd, c[0], checked_of(c, d), raw_at(c, d)) for (c, d, cwd, pat) in root_invs)),
+        None,
+        "matrix %s %s %s" % (enc_reg(reg), vlib.hexs(canon), enc_table()),
+        "matrix %s %s %s" % (enc_reg(reg), vlib.hexs(varied), enc_table()),
+    ]
+    if with_sub:
+        sub_invs = invs[len(cfgs):]
+        sub_doc = [doc_run(c, d, cwd) for (c, d, cwd, pat) in sub_invs]
+        obsv.append(("-merge of two -f binary runs started in the sub directory of the LF and of the CRLF checkout", "text",
+                     ["-merge"] + bins[len(cfgs):], None, base))
+        mlines.append("pipe %s %d %s" % (enc_reg(reg), len(sub_invs), " ".join(enc_prun(True, cwd, c[0], checked_of(c, d), raw_at(c, d)) for (c, d, cwd, pat) in sub_invs)))
+    else:
+        sub_doc = None
 
     def observe(o):
-        what, args, stdin = o
-        rc, so, se = sc_run(sc, args, d, stdin, cache)
+        what, fmt, args, stdin, cwd = o
+        rc, so, se = sc_run(sc, args, cwd, stdin, cache)
         if rc not in (0, 1) or se.strip():
-            raise vlib.HarnessError("%s failed in %s: rc=%d %s" % (what, d, rc, se[-800:]))
-        return ms(parse_text(so.decode()))
+            # e.g. a matrix text the real parser rejects: an observation, not a harness failure
+            return [(("staticcheck failed", "rc=%d" % rc, se.strip()[-600:]), 1)]
+        return ms(parse_text(so.decode())) if fmt == "text" else ms(parse_json(so.decode()))
 
     with ThreadPoolExecutor(max_workers=3) as ex:
         gots = list(ex.map(observe, obsv))
-    for (what, args, stdin), got in zip(obsv, gots):
+    mouts = run_model(ctx, [l for l in mlines if l])
+    mouts = iter(mouts)
+    for i, ((what, fmt, args, stdin, cwd), got) in enumerate(zip(obsv, gots)):
         stats["invocations"] += 1
-        if got != exp_text:
-            fails.append({"module_dir_snapshot": snapshot(d), "configs": [list(c) for c in cfgs], "what": what,
-                          "args": [a if not a.startswith(d) else os.path.basename(a) for a in args],
-                          "stdin": stdin.decode() if stdin is not None else None,
-                          "expected_text": show_ms(exp_text), "got_text": show_ms(got),
-                          "runs_decoded_from_f_binary": runs})
-    if ctx.c12_model:
-        mo = dec_model(vlib.run_model(ctx, "C12", [enc_runs(norm_runs(runs))])[0])
-        mo_text = ms(text_proj(k, v) for k, v in mo)
-        if mo_text != exp_text:
-            diffs.append({"module": d, "model_text": show_ms(mo_text), "expected_text": show_ms(exp_text)})
-    sample = {"configs": lines, "kept": show_ms(exp_text)[:6], "situations": sorted(tags)}
+        is_sub = with_sub and i == len(obsv) - 1
+        if is_sub:
+            e = expected(sub_doc)
+            want = ms(text_proj(k, v) for k, v in e.items())
+        else:
+            want = exp_text if fmt == "text" else exp_json
+        if got != want:
+            fail(what, args=[a if not a.startswith(base) else os.path.relpath(a, base) for a in args],
+                 stdin=stdin.decode() if stdin is not None else None, cwd=os.path.relpath(cwd, base),
+                 binary_runs_made_in={k: os.path.relpath(v, base) for k, v in where.items()},
+                 expected=show_ms(want), got=show_ms(got),
+                 expected_from="one plain `staticcheck -f json -tags=…` run per configuration + Doc.MergeIf of the real registry + files compiled per configuration")
+        if mlines[i]:
+            mo = dec_model(next(mouts))
+            if stdin is not None:       # in-process matrix: absolute paths, printed through shortPath
+                mo = [((short_path(cwd, k[0]),) + k[1:4] + (short_path(cwd, k[4]),) + k[5:], v) for k, v in mo]
+            mo_ms = ms(text_proj(k, v) for k, v in mo)
+            if mo_ms != got:
+                diffs.append({"what": "model (parseBuildConfigs + lintRun + binOut + mergeRuns) differs from the real output: " + what,
+                              "module_files": snapshot, "configs": [list(c) for c in cfgs], "stdin": stdin.decode() if stdin is not None else None,
+                              "model": show_ms(mo_ms), "real": show_ms(got)})
+    sample = {"configs": [cfg_line(c) for c in cfgs], "matrix_stdin_varied": varied, "kept": show_ms(exp_text)[:6], "situations": sorted(tags),
+              "binary_runs_made_in": {k: os.path.relpath(v, base) for k, v in where.items()}}
     return fails, diffs, stats, sample
 
 
-def check_matrix(ctx, gob, sc, rng, nmods):
+def check_matrix(ctx, gob, sc, rng, nmods, reg):
     from concurrent.futures import ThreadPoolExecutor
     cache = os.path.dirname(ctx.path("sccache", "x"))
 
     def one(mi):
         r = rng.fork("mod%d" % mi)
-        d = os.path.join(ctx.scratch, "mods", "m%d" % mi)
-        cfgs = gen_module(r, d, mi)
-        return matrix_module(ctx, gob, sc, cache, d, cfgs, r)
+        base = os.path.join(os.path.realpath(ctx.scratch), "mods", "m%d" % mi)
+        texts, cfgs = gen_module(r, mi, not ctx.quick)
+        return matrix_module(ctx, gob, sc, cache, base, texts, cfgs, r, reg, with_sub=(mi % 4 == 0))
 
-    with ThreadPoolExecutor(max_workers=max(2, vlib.NCPU // 3)) as ex:
+    with ThreadPoolExecutor(max_workers=3) as ex:
         res = list(ex.map(one, range(nmods)))
     fails, diffs, samples = [], [], []
     stats = collections.Counter()
@@ -628,16 +1095,93 @@ def check_matrix(ctx, gob, sc, rng, nmods):
     return fails, diffs, stats, samples
 
 
-def snapshot(d):
-    out = {}
-    for fn in sorted(os.listdir(d)):
-        if fn.endswith(".go") or fn == "go.mod":
-            out[fn] = open(os.path.join(d, fn)).read()
-    return out
+# ----------------------------------------------------------------------------- the matrix line parser through the CLI
+ERR_RE = re.compile(r"^<stdin>:(\d+) couldn't parse build matrix: (.*)$")
+KIND_OF_MSG = [("missing build name", "missing-name"), ("unterminated quoted string", "unterminated"),
+               ("invalid build name", "invalid-name"), ("couldn't parse empty build config", "empty")]
+NAME_CH = "abzAZ09_"
+WEIRD_CH = "ab1_:\" -=,\t.:\" "
+
+
+def gen_matrix_text(rng):
+    """-> (text, simple): simple = every non-blank line is plainly valid (then the sentinel must be
+    reported as configuration number (non-blank lines + 1))."""
+    lines, simple, nvalid = [], True, 0
+    for _ in range(rng.below(5)):
+        k = rng.below(10)
+        if k < 5:
+            name = "".join(rng.choice(NAME_CH) for _ in range(1 + rng.below(5)))
+            rest = rng.choice(["", " -tags=a", " -tags=a,b", " GOOS=linux", " X=1 -v", " -tags=a -x", "  -a   -b  ", " \"-tags=a b\" Y=2"])
+            l = rng.choice(["", " ", "\t "]) + name + ":" + rest + rng.choice(["", " ", "\t", "  \t"])
+            nvalid += 1
+        elif k < 7:
+            l = rng.choice(["", " ", "\t", "   \t "])
+        else:
+            simple = False
+            l = rng.choice([
+                "".join(rng.choice(WEIRD_CH) for _ in range(rng.below(12))),
+                "x", "a b: -x", "a-b: x", "a:b", "a:b: -x", "a: \"x y\" z", "a: \"x", "a: x\"", ": -x", ":", "a::", "a: :", "::",
+                "a: \"", "a: \" ", "é: -x", "a:  \"\"  b", "a: -x\" \"y", "a :", "a: b:", "n: A=1 \"B=2 3\" -tags \"a b\" C=4",
+            ])
+        lines.append(l)
+    text = "".join(l + rng.choice(["\n", "\n", "\r\n"]) for l in lines)
+    if lines and rng.chance(1, 3):
+        text = text[:-2] if text.endswith("\r\n") else text[:-1]      # last line without newline
+    return text, simple, nvalid
+
+
+def check_parser(ctx, sc, rng, ncases):
+    """X3. Every case ends in a parse error, so the real binary exits before linting anything."""
+    from concurrent.futures import ThreadPoolExecutor
+    fails, diffs = [], []
+    stats = collections.Counter()
+    cases = []
+    fixed = [("ca: -tags=a\ncac: -tags=a,c", True, 2), ("one:", True, 1), ("", True, 0), ("\n\n", True, 0),
+             ("a:\r\nb: -tags=x\r\n", True, 2), ("x", False, 0), ("ok:\nbad name: -x\n", False, 1), ("a: \"b", False, 0)]
+    for i in range(ncases):
+        cases.append(gen_matrix_text(rng.fork("p%d" % i)))
+    cases = fixed + [c for c in cases if all(ord(ch) < 128 for ch in c[0])]
+    first = run_model(ctx, ["parsecfg " + vlib.hexs(t) for t, _, _ in cases])
+    texts = []
+    for (t, simple, nvalid), m in zip(cases, first):
+        if m.startswith("ok"):
+            # sentinel: a line without colon; with or without final newline
+            t2 = t + ("" if t == "" or t.endswith("\n") else "\n") + "!" + ("\n" if len(t) % 2 else "")
+        else:
+            t2 = t
+        texts.append(t2)
+    second = run_model(ctx, ["parsecfg " + vlib.hexs(t) for t in texts])
+    d = os.path.dirname(ctx.path("parser", "x"))
+
+    def real(t):
+        env = vlib.go_env({"STATICCHECK_CACHE": os.path.join(d, "cache")})
+        p = subprocess.run([sc, "-matrix", "./..."], cwd=d, input=t.encode(), stdout=subprocess.PIPE, stderr=subprocess.PIPE, env=env, timeout=300)
+        se = p.stderr.decode(errors="replace").strip()
+        m = ERR_RE.match(se)
+        if p.returncode == 2 and m:
+            kind = next((k for msg, k in KIND_OF_MSG if m.group(2).startswith(msg)), "other:" + m.group(2))
+            return "err %s %s" % (m.group(1), kind)
+        return "no-parse-error rc=%d %s" % (p.returncode, se[:120])
+
+    with ThreadPoolExecutor(max_workers=6) as ex:
+        reals = list(ex.map(real, texts))
+    for (t, simple, nvalid), m1, t2, m2, got in zip(cases, first, texts, second, reals):
+        stats["invocations"] += 1
+        stats["model:" + " ".join(m2.split()[::2][:2])] += 1
+        if simple:
+            stats["simple"] += 1
+            want = "err %d missing-name" % (nvalid + 1)
+            if got != want:
+                fails.append({"stdin": t2, "what": "every non-blank line of a build matrix is one configuration: the sentinel line `!` after %d valid "
+                                                   "lines must be reported as configuration %d" % (nvalid, nvalid + 1), "expected": want, "got": got})
+        if m2 != got:
+            diffs.append({"what": "parseBuildConfigs: model and `staticcheck -matrix` disagree", "stdin": t2, "model": m2, "real": got,
+                          "model_on_text_without_sentinel": m1})
+    return fails, diffs, stats
 
 
 # ----------------------------------------------------------------------------- main
-def replay(ctx, gob, sc):
+def replay(ctx, gob, sc, reg):
     obj = json.load(open(ctx.replay))
     cases = []
     for f in obj.get("failures", []):
@@ -648,24 +1192,34 @@ def replay(ctx, gob, sc):
     mfails = []
     nm = 0
     for i, f in enumerate(obj.get("failures", [])):
-        if "module_dir_snapshot" in f:
-            d = os.path.join(ctx.scratch, "replaymods", "m%d" % i)
-            os.makedirs(d, exist_ok=True)
-            for fn, txt in f["module_dir_snapshot"].items():
-                with open(os.path.join(d, fn), "w") as fh:
-                    fh.write(txt)
-            cfgs = [(c[0], c[1]) for c in f["configs"]]
-            mf, _, _, _ = matrix_module(ctx, gob, sc, os.path.dirname(ctx.path("sccache", "x")), d, cfgs, vlib.SplitMix(ctx.seed))
+        if "module_files" in f and "configs" in f:
+            base = os.path.join(os.path.realpath(ctx.scratch), "replaymods", "m%d" % i)
+            texts = {n: (None, t) for n, t in f["module_files"].items()}
+            for n, (_, t) in list(texts.items()):
+                m = re.match(r"//go:build (.*)\n", t)
+                if m:
+                    texts[n] = (m.group(1), t)
+            cfgs = [(c[0], list(c[1])) for c in f["configs"]]
+            mf, md, _, _ = matrix_module(ctx, gob, sc, os.path.dirname(ctx.path("sccache", "x")), base, texts, cfgs, vlib.SplitMix(ctx.seed), reg, True)
             mfails += mf
+            nm += 1
+        elif "stdin" in f and "expected" in f:
+            d = os.path.dirname(ctx.path("parser", "x"))
+            p = subprocess.run([sc, "-matrix", "./..."], cwd=d, input=f["stdin"].encode(), stdout=subprocess.PIPE, stderr=subprocess.PIPE, env=vlib.go_env())
+            se = p.stderr.decode(errors="replace").strip()
+            m = ERR_RE.match(se)
+            got = "err %s %s" % (m.group(1), next((k for msg, k in KIND_OF_MSG if m.group(2).startswith(msg)), "other")) if m and p.returncode == 2 else "no-parse-error"
+            if got != f["expected"]:
+                mfails.append({"stdin": f["stdin"], "expected": f["expected"], "got": got})
             nm += 1
     if mfails:
         ctx.violation("replayed_matrix.json", {"failures": mfails[:5]}, text="C12 replay: %d -matrix observations still fail" % len(mfails))
     if not cases:
         if not nm:
             raise vlib.HarnessError("replay file contains no case")
-        ctx.coverage.update({"evaluations": 6 * nm, "replayed_modules": nm})
+        ctx.coverage.update({"evaluations": nm, "replayed_modules": nm})
         return vlib.finish(ctx, "proof")
-    fails, diffs, stats = check_crafted(ctx, gob, sc, cases, vlib.SplitMix(ctx.seed), "replay")
+    fails, diffs, stats = check_crafted(ctx, gob, sc, [norm_runs(c) for c in cases], vlib.SplitMix(ctx.seed), "replay")
     if fails:
         ctx.violation("replayed.json", {"failures": fails[:5]}, text="C12 replay: %d of %d cases still fail" % (len(fails), len(cases)))
     ctx.coverage.update({"evaluations": stats["invocations"], "replayed_cases": len(cases)})
@@ -673,43 +1227,79 @@ def replay(ctx, gob, sc):
 
 
 HOW = ("harness/cmd/c12gob: `echo '<job json>' | c12gob run -bin <staticcheck built from the tree> -dir <tmp>` writes one "
-       "gob file per entry of job.files and runs `staticcheck -merge -f text|json <files>`; or ./check C12 --replay <this file>")
+       "gob file per entry of job.files and runs `staticcheck -show-ignored -merge -f text|json <files>`; or ./check C12 --replay <this file>")
+HOW_MATRIX = ("write module_files into two directories (the second with CRLF line endings, elsewhere in the file system); per configuration "
+              "`echo '<name>: -tags=<tags>' | staticcheck -matrix -f binary ./... > run_<name>.bin` in the directory named by binary_runs_made_in; "
+              "then `staticcheck -merge run_*.bin`, resp. `printf '<stdin>' | staticcheck <args>` in cwd; the expectation comes from one plain "
+              "`staticcheck -f json -tags=<tags> ./...` per configuration and the merge strategy of each check's documentation; "
+              "or ./check C12 --replay <this file>")
 
 
 def run(ctx):
     import time
+    from concurrent.futures import ThreadPoolExecutor
     phase = {}
+    t0 = time.time()
+    ex = ThreadPoolExecutor(max_workers=4)
+    f_gob = ex.submit(vlib.build_harness, ctx, "c12gob")
+    f_sc = ex.submit(vlib.build_repo_cmd, ctx, "./cmd/staticcheck")
+    gob = f_gob.result()
+    phase["go_build_harness"] = round(time.time() - t0, 1)
+    comparator = extract_comparator(ctx, gob)            # tie G, before the proofs are built
     t = time.time()
     lean_ok, lean_broke = vlib.std_lean_phase(ctx, MODULES, THEOREMS)
     phase["lean_build_audit"] = round(time.time() - t, 1)
     if not os.path.exists(vlib.driver_path("C12")):
         raise vlib.HarnessError("c12driver was not built: " + json.dumps(lean_broke)[:2000])
-    ctx.c12_model = True
-    t = time.time()
-    gob = vlib.build_harness(ctx, "c12gob")
-    sc = vlib.build_repo_cmd(ctx, "./cmd/staticcheck")
-    phase["go_builds"] = round(time.time() - t, 1)
+    reg = load_registry(ctx, gob)
+    sc = f_sc.result()
+    phase["go_builds_total"] = round(time.time() - t0, 1)
     if ctx.replay:
-        return replay(ctx, gob, sc)
+        return replay(ctx, gob, sc, reg)
+
+    # probe of the world hypothesis CaseConsistent on the real registry
+    folded = collections.Counter(n.lower() for n, _ in reg)
+    clash = sorted(n for n, _ in reg if folded[n.lower()] > 1)
+    if clash:
+        ctx.violation("registry_case.json", {"what": "analyzer names that differ only in letter case are registered; diagnostic.equal folds the case of the "
+                                                     "category, the merge key does not (Lean: case_inconsistent_witness)", "names": clash},
+                      text="C12: registered analyzer names collide after case folding: %s" % clash)
 
     rng = vlib.SplitMix(ctx.seed).fork("C12")
-    ncases, ngroups, nmods = (60, 16, 3) if ctx.quick else (2000, 16, 40)
+    ncases, ngroups, nmods, nparse = (40, 16, 3, 80) if ctx.quick else (2000, 16, 40, 2500)
     corpus = [norm_runs(c) for c in CORPUS]
     cdir = os.path.join(vlib.VERIF, "corpus", "C12")
     if os.path.isdir(cdir):
         for fn in sorted(os.listdir(cdir)):
             if fn.endswith(".json"):
                 corpus.append(norm_runs(json.load(open(os.path.join(cdir, fn)))["runs"]))
+    corpus_case = [norm_runs(c) for c in CORPUS_CASE]
     gen = [gen_case(rng.fork("case%d" % i), ngroups) for i in range(ncases)]
 
-    t = time.time()
-    f1, d1, s1 = check_crafted(ctx, gob, sc, corpus, rng.fork("corpusv"), "corpus")
-    f2, d2, s2 = check_crafted(ctx, gob, sc, gen, rng.fork("genv"), "generated")
-    phase["crafted_merge"] = round(time.time() - t, 1)
-    t = time.time()
-    f3, d3, s3, msamples = check_matrix(ctx, gob, sc, rng.fork("matrix"), nmods)
-    phase["matrix"] = round(time.time() - t, 1)
-    fails, diffs = f1 + f2, d1 + d2 + d3
+    def crafted():
+        t = time.time()
+        a = check_crafted(ctx, gob, sc, corpus, rng.fork("corpusv"), "corpus")
+        b = check_crafted(ctx, gob, sc, corpus_case, rng.fork("corpuscv"), "corpus-case-inconsistent", oracle=False)
+        c = check_crafted(ctx, gob, sc, gen, rng.fork("genv"), "generated")
+        phase["crafted_merge"] = round(time.time() - t, 1)
+        return a, b, c
+
+    def real_modules():
+        t = time.time()
+        m = check_matrix(ctx, gob, sc, rng.fork("matrix"), nmods, reg)
+        phase["real_modules"] = round(time.time() - t, 1)
+        t = time.time()
+        p = check_parser(ctx, sc, rng.fork("parser"), nparse)
+        phase["matrix_parser"] = round(time.time() - t, 1)
+        return m, p
+
+    f1 = ex.submit(crafted)
+    f2 = ex.submit(real_modules)
+    (fa, da, sa), (fb, db, sb), (fc, dc, s2) = f1.result()
+    (f3, d3, s3, msamples), (f4, d4, s4) = f2.result()
+    ex.shutdown()
+    fails, diffs = fa + fc, da + db + dc + d3 + d4
+    s1 = sa + sb
 
     hist = collections.Counter()
     nontrivial = set()
@@ -729,29 +1319,39 @@ def run(ctx):
             if tags:
                 nontrivial.add(enc_runs(rs))
     ctx.coverage.update({
-        "evaluations": s1["invocations"] + s2["invocations"] + s3["invocations"],
+        "evaluations": s1["invocations"] + s2["invocations"] + s3["invocations"] + s4["invocations"],
         "distinct_nontrivial": len(nontrivial),
         "rule": "a crafted case is a list of runs over several independent file groups; a group counts as non-trivial when it "
                 "contains an 'all' problem dropped because a run that checked its file was silent, an 'all' problem kept although "
                 "some run was silent (that run did not check the file), a problem whose build names were merged from several runs, "
-                "two distinct descriptors equal on (file,line,column,message) under several builds, or a descriptor twice in one run; "
-                "distinct = distinct canonical input lines of such groups",
-        "crafted_cases": len(corpus) + len(gen), "groups_per_case": ngroups,
+                "two distinct descriptors equal on (file,line,column,message) under several builds, a descriptor twice in one run, "
+                "one descriptor reported with different strategies, or one (descriptor, build) with different severities; "
+                "distinct = distinct canonical input lines of such groups. Real modules (counted separately under real_modules) always "
+                "contain an 'all' check other than U1000 that fires in a shared file under a strict subset of the configurations.",
+        "crafted_cases": len(corpus) + len(corpus_case) + len(gen), "groups_per_case": ngroups,
         "histogram": dict(sorted(hist.items())),
-        "matrix": dict(sorted(s3.items())),
+        "real_modules": dict(sorted(s3.items())),
+        "matrix_parser": dict(sorted(s4.items())),
+        "registry": {"analyzers": len(reg), "documented_all": sorted(n for n, m in reg if m == ALL), "case_clashes": clash},
+        "comparator": comparator,
         "phase_seconds": phase,
         "samples": [{"input": enc_runs(c)[:600], "kept": show_ms(ms(text_proj(k, v) for k, v in expected(c).items()))[:8]}
                     for c in (corpus[:3] + gen[:2])] + msamples,
     })
     ctx.assumptions += [
-        "encoding/gob, sort.Slice (yields some permutation sorted for `less`), sort.Strings, strings.Join and Go's map semantics are modelled, not verified",
-        "the linter producing each run (runner, analyzers, go/packages, build-constraint evaluation) is outside the model; -matrix is compared with per-configuration runs of the same binary",
-        "string order: Lean compares code points, Go bytes — equal for valid UTF-8; generated strings are ASCII",
-        "Severity, Related, SuggestedFixes are not part of the property; crafted runs use severity 0 and no related information",
-        "check names are spelled in one letter case (diagnostic.equal folds case, descriptor equality does not)",
+        "encoding/gob, sort.Slice (yields some permutation sorted for `less`), sort.Strings, strings.Join, filepath.Rel on clean absolute paths, "
+        "bufio.Reader.ReadString and Go's map semantics are modelled, not verified",
+        "the runner (analyzers, go/packages, build-constraint evaluation) is outside the model: what each configuration finds is taken from a plain "
+        "`staticcheck -f json -tags=…` run of the same binary; which files a configuration compiles is computed here from the generated //go:build lines",
+        "string order: Lean compares code points, Go bytes — equal for valid UTF-8; generated strings are ASCII; matrix lines with non-ASCII "
+        "characters (unicode.IsSpace/IsLetter/IsNumber beyond ASCII) are outside the model",
+        "Related, SuggestedFixes are not part of the property (only checked to be normalised in -f binary output); severities are varied in crafted "
+        "runs (-show-ignored), the problems of generated modules all have severity error",
+        "check names are spelled in one letter case (diagnostic.equal folds case, descriptor equality does not): theorem hypothesis, probed on the "
+        "real registry and on the categories real runs report; the code's behaviour without it is tied to the model on crafted runs",
     ]
 
-    if fails or f3:
+    if fails or f3 or f4:
         if fails:
             first = fails[0]
             try:
@@ -767,40 +1367,54 @@ def run(ctx):
                 json.dumps(first.get("minimised") or {"got": first["got_text"], "expected": first["expected_text"]})[:1500]))
         if f3:
             ctx.violation("matrix_oracle.json", {
-                "what": "`staticcheck -matrix` (or -merge of real -f binary runs) differs from the any/all merge of one run per build configuration",
-                "how_to_replay": "recreate the files of module_dir_snapshot in a directory, then `printf '<stdin>' | staticcheck <args>` there "
-                                 "(per-configuration runs: `echo '<config line>' | staticcheck -matrix -f binary ./... > run.bin`)",
-                "count": len(f3), "failures": f3[:6],
-            }, text="C12: %d -matrix observations differ from merging one run per configuration; first: %s, stdin=%r\n got %s\n expected %s" % (
-                len(f3), f3[0]["what"], f3[0]["stdin"], f3[0]["got_text"][:8], f3[0]["expected_text"][:8]))
+                "what": "`staticcheck -matrix` / `-f binary` + `-merge` on a real module differs from the any/all merge (strategies of the checks' "
+                        "documentation) of one plain run per build configuration",
+                "how_to_replay": HOW_MATRIX, "count": len(f3), "failures": f3[:6], "model_vs_impl_diffs": (d3 + d4)[:4],
+            }, text="C12: %d observations on real modules differ from merging one run per configuration; first: %s\n stdin=%r\n got %s\n expected %s" % (
+                len(f3), f3[0]["what"], f3[0].get("stdin"), (f3[0].get("got") or [])[:8], (f3[0].get("expected") or [])[:8]))
+        if f4:
+            ctx.violation("matrix_lines.json", {
+                "what": "`staticcheck -matrix` does not turn every non-blank line of stdin into exactly one build configuration",
+                "how_to_replay": "printf '<stdin>' | staticcheck -matrix ./...   (stderr names the number of the configuration that failed to parse)",
+                "count": len(f4), "failures": f4[:10],
+            }, text="C12: %d matrix texts are not parsed one configuration per non-blank line; first: stdin=%r expected %s got %s" % (
+                len(f4), f4[0]["stdin"], f4[0]["expected"], f4[0]["got"]))
     elif diffs or not lean_ok:
         # violation search: the oracle already ran on everything above; add a collision-heavy batch
         extra = [gen_case(rng.fork("search%d" % i), 12) for i in range(150 if ctx.quick else 1500)]
-        f4, d4, s4 = check_crafted(ctx, gob, sc, extra, rng.fork("searchv"), "search")
-        if f4:
-            first = f4[0]
+        f5, d5, s5 = check_crafted(ctx, gob, sc, extra, rng.fork("searchv"), "search")
+        if f5:
+            first = f5[0]
             first["minimised"] = shrink(ctx, gob, sc, first)
             ctx.violation("merge_oracle.json", {"what": "found by violation search after a model/proof break", "how_to_replay": HOW,
-                                                "count": len(f4), "failures": f4[:10], "lean": lean_broke},
-                          text="C12: violation search found %d failing run sets" % len(f4))
+                                                "count": len(f5), "failures": f5[:10], "lean": lean_broke},
+                          text="C12: violation search found %d failing run sets" % len(f5))
         else:
             ctx.violation("correspondence.json", {
-                "what": "the Lean model no longer corresponds to lintcmd's merge (or a proof no longer checks), but every explored run set satisfies the oracle",
-                "model_vs_impl_diffs": (diffs + d4)[:10], "lean": lean_broke,
-                "correspondence": "C12 merge stream (text+json projections); theorems " + ", ".join(THEOREMS),
+                "what": "the Lean model no longer corresponds to lintcmd (merge, -f binary normalisation, strategy assignment or matrix parser), or a proof no longer checks, but every explored input satisfies the oracle",
+                "model_vs_impl_diffs": (diffs + d5)[:10], "lean": lean_broke,
+                "correspondence": "C12 streams: crafted merge (text+json), binout, pipe, matrix, parsecfg; theorems " + ", ".join(THEOREMS),
             }, nofail=True)
     return vlib.finish(ctx, "proof")
 
 
 META = {
     "level": "proof",
-    "technique": "Lean 4 theorems over a model of runFromLintResult / mergeRuns / printDiagnostics' sort+dedup (all sorted permutations); "
-                 "executable correspondence and an independent oracle on the real `staticcheck -merge` / `-matrix`",
-    "text": "keep_any, keep_all, out_nodup, builds_exact, merge_comm, merge_idem are proved for all run lists and for every permutation sorted "
-            "for the comparator; the model is tied to the code by feeding gob-crafted -f binary runs (permuted, repeated, concatenated, on stdin) "
-            "to the real binary and comparing the printed problems and build names; real -matrix runs on generated tagged modules are compared "
-            "with -merge of one -f binary run per configuration.",
-    "note": "Trusted: Lean kernel, compiled c12driver, harness/cmd/c12gob (gob mirror types), this file's parsers; gob, sort.Slice, the linter "
-            "that produces runs are modelled/assumed, not verified.",
+    "technique": "Lean 4 theorems over a model of runFromLintResult / mergeRuns / printDiagnostics' sort+dedup (all sorted permutations, all "
+                 "descriptor-first comparators), linter.lint's strategy assignment, the -f binary normalisation and parseBuildConfigs; comparator field "
+                 "order extracted from the source (G); executable correspondence and an independent oracle on the real `staticcheck -merge` / `-matrix` / "
+                 "`-f binary`, with expectations from plain per-configuration runs and the real registry's documented strategies",
+    "text": "Proved for all run lists: any/all (also for mixed strategies), no duplicates, exact build names, order independence, idempotence, for every "
+            "permutation sorted for any comparator that compares the whole descriptor first (the source's field order is extracted and re-proved "
+            "descriptor-first on every run); -f binary output and hence the merge result are independent of the checkout location and of byte offsets; "
+            "parseBuildConfigs yields exactly one configuration per non-blank line whatever the newline conventions; -matrix = any/all over the build "
+            "configurations with exactly the names of the reporting configurations. Tied by crafted gob runs (severities, mixed strategies, "
+            "case-inconsistent names), by real modules where the expected -matrix / -merge result is computed by the model from plain per-configuration "
+            "runs + Doc.MergeIf of the real registry (LF and CRLF checkouts in different directories), by the CLI's parse errors, and by a gob "
+            "round trip of real -f binary files through the harness' mirror types.",
+    "note": "Trusted: Lean kernel, compiled c12driver, harness/cmd/c12gob (mirror types are checked against the real stream at run time), this file's "
+            "parsers and its evaluation of the generated //go:build lines; gob, sort.Slice, filepath.Rel, the runner that produces the findings of a "
+            "configuration are modelled/assumed, not verified. World hypotheses (probed): analyzer names distinct after case folding; U1000 only "
+            "from linter.lint's own loop.",
     "design_ref": "DESIGN.md section 5, C12",
 }
